@@ -457,6 +457,25 @@ func c04Type5Request(p *Prog, r *Report, R1 string) {
 			if !okEl {
 				probs = append(probs, "element i is not a fresh 32-byte copy of list[32*i:]")
 			}
+			// the element list of the object is replaced on THIS accepting path: a
+			// store to .BlindedReq dominates the return (else a reused object keeps
+			// the previous message's elements)
+			assigned := false
+			for _, b := range fn.Blocks {
+				for _, in := range b.Instrs {
+					st, ok := in.(*ssa.Store)
+					if !ok {
+						continue
+					}
+					fa, ok := st.Addr.(*ssa.FieldAddr)
+					if ok && fieldName(deref(fa.X.Type()), fa.Field) == "BlindedReq" && dominates(st, rp.Ret) {
+						assigned = true
+					}
+				}
+			}
+			if !assigned {
+				probs = append(probs, "this accepting path does not assign .BlindedReq: a reused object keeps the elements of the message it held before")
+			}
 		}
 		if len(probs) > 0 {
 			r.Fail(R1, name+": decoder reads", p.Pos(rp.Ret.Pos()), strings.Join(probs, "; ")+" [reads: "+readSeqString(items)+"]")
